@@ -843,9 +843,10 @@ package mocrelay
 // channel plumbing (C07 C12 C13 C16 C17): cancellable sends
 
 //@ func sendCtx
-//@   serves C12 C13 C16 C17
+//@   serves C07 C12 C13 C16 C17
 //@   opt inst.T=ServerMsg
 //@   writes contents(ch), ghost(dropped, ch)
+//@   ensures !sent ==> ctxdone(ctx)
 //@   ensures sent ==> (len(chanbuf(ch)) == len(old(chanbuf(ch))) + 1 && forall(i, 0, len(old(chanbuf(ch))), chanbuf(ch)[i] == old(chanbuf(ch))[i]) && chanbuf(ch)[len(old(chanbuf(ch)))] == v)
 //@   promises sent ==> g(dropped, ch) == old(g(dropped, ch))
 //@   ensures !sent ==> chanbuf(ch) == old(chanbuf(ch))
@@ -1367,18 +1368,26 @@ package mocrelay
 //@   assert @exit: g(endcalls, refof(base)) == old(g(endcalls, refof(base))) + ite(g(started, refof(base)), 1, 0)
 //@   assert @exit: g(started, refof(base)) ==> all(k, any, ctxval(g(endctx, refof(base)), k) == ctxval(g(startctx, refof(base)), k))
 
+// (the hooks of a base cannot reach the session's channels or the life-cycle ghosts of the base: `keeps`)
 //@ iface (SimpleMiddlewareBase).ServeNostrClientMsg
 //@   params(b, ctx, msg)
+//@   keeps anychan(ClientMsg), anychan(ServerMsg), ghost(started), ghost(endcalls), ghost(startctx), ghost(endctx), ghost(smcalls), ghost(lastsm)
+//@   promises g(cmcalls, refof(b)) == old(g(cmcalls, refof(b))) + 1 && g(lastcm, refof(b)) == msg
 //@   ensures (result2 == nil && !isnil(result0)) ==> (fresh(result0) && chanhead(result0) == 0)
 //@   ensures (result2 == nil && !isnil(result1)) ==> (fresh(result1) && chanhead(result1) == 0)
 //@   ensures (!isnil(result0) && !isnil(result1)) ==> refof(result0) != refof(result1)
 //@ iface (SimpleMiddlewareBase).ServeNostrServerMsg
 //@   params(b, ctx, msg)
+//@   keeps anychan(ClientMsg), anychan(ServerMsg), ghost(started), ghost(endcalls), ghost(startctx), ghost(endctx), ghost(cmcalls), ghost(lastcm)
+//@   promises g(smcalls, refof(b)) == old(g(smcalls, refof(b))) + 1 && g(lastsm, refof(b)) == msg
 //@   ensures (result1 == nil && !isnil(result0)) ==> (fresh(result0) && chanhead(result0) == 0)
 
 //@ func simpleMiddlewareHandleRecv
 //@   serves C17 C13
-//@   requires refof(send) != refof(rCh)
+//@   requires refof(send) != refof(rCh) && refof(recv) != refof(rCh) && refof(recv) != refof(send)
+//@   assert[C17] @aftercall_ServeNostrClientMsg: g(lastcm, refof(base)) == cmsg
+//@   loop 1
+//@     invariant[C17] g(cmcalls, refof(base)) - old(g(cmcalls, refof(base))) == chanhead(recv) - old(chanhead(recv))
 //@   loop 2
 //@     lwrites contents(send), contents(smsgCh), ghost(dropped, send)
 //@     invariant !isnil(smsgCh) && fresh(smsgCh) && chanbuf(smsgCh) == lold(chanbuf(smsgCh)) && lold(chanhead(smsgCh)) <= chanhead(smsgCh) && chanhead(smsgCh) <= len(chanbuf(smsgCh))
@@ -1397,6 +1406,10 @@ package mocrelay
 //@ func simpleMiddlewareHandleSend
 //@   serves C17 C13
 //@   requires refof(send) != refof(sCh)
+//@   requires[C17] !chanclosed(sCh)
+//@   assert[C17] @aftercall_ServeNostrServerMsg: g(lastsm, refof(base)) == smsg
+//@   loop 1
+//@     invariant[C17] !chanclosed(sCh) && g(smcalls, refof(base)) - old(g(smcalls, refof(base))) == chanhead(sCh) - old(chanhead(sCh))
 //@   loop 2
 //@     lwrites contents(send), contents(smsgCh), ghost(dropped, send)
 //@     invariant !isnil(smsgCh) && fresh(smsgCh) && chanbuf(smsgCh) == lold(chanbuf(smsgCh)) && lold(chanhead(smsgCh)) <= chanhead(smsgCh) && chanhead(smsgCh) <= len(chanbuf(smsgCh))
@@ -1671,7 +1684,7 @@ package mocrelay
 //@   ensures[C07] !typeis(msg, *ClientEventMsg) ==> all(c, chan ServerMsg, !fresh(c) ==> (chanbuf(c) == old(chanbuf(c)) && g(dropped, c) == old(g(dropped, c))))
 //@   ensures[C07] all(r, string, all(sid, string, registered(router.subs, r, sid) ==> ((old(registered(router.subs, r, sid)) && subAt(router.subs, r, sid) == old(subAt(router.subs, r, sid))) || refof(subAt(router.subs, r, sid).Ch) == refof(subCh))))
 //@   ensures[C07] typeis(msg, *ClientCloseMsg) ==> (isnil(result) && !registered(router.subs, reqID, as(msg, *ClientCloseMsg).SubscriptionID))
-//@   ensures[C07] typeis(msg, *ClientCountMsg) ==> typeis(result, *ServerCountMsg)
+//@   ensures[C07] typeis(msg, *ClientCountMsg) ==> (typeis(result, *ServerCountMsg) && isCountFor(result, as(msg, *ClientCountMsg).SubscriptionID))
 
 // every exit of a router session removes the session's subscriptions and cancels the session context;
 // every blocking select of the session is cancellable
@@ -1685,6 +1698,7 @@ package mocrelay
 //@   loop 2
 //@     invariant registryWF(router.subs) && !isnil(subCh) && chanbuf(recv) == lold(chanbuf(recv)) && 0 <= chanhead(recv)
 //@     invariant[C07] !listened(router.subs, send) && refof(subCh) != refof(send)
+//@     invariant[C07] chancap(subCh) == router.buflen
 //@     invariant[C07] (len(chanbuf(send)) + g(dropped, send)) - lold(len(chanbuf(send)) + g(dropped, send)) == chanhead(recv) - lold(chanhead(recv))
 
 // the forwarding loops of a merged session and of the relay's writer: every blocking select is cancellable
@@ -1713,9 +1727,17 @@ package mocrelay
 //@   serves C13 C08 C09
 //@   writes nothing
 //@   ensures fresh(result) && result.Idx == idx && result.Msg == msg
+// the forwarder of a session's live deliveries: what is taken from the queue is sent on, in order and unchanged; a
+// delivery is lost only when the session's context is done (a lossy send here would drop deliveries below the buffer)
 //@ func RouterHandler.ServeNostr$1
-//@   serves C13
+//@   serves C13 C07
+//@   requires[C07] refof(send) != refof(subCh) && !chanclosed(subCh)
 //@   assert @exit: calledcount(cancel) >= 1
+//@   loop 1
+//@     invariant[C07] !chanclosed(subCh) && lold(chanhead(subCh)) <= chanhead(subCh)
+//@     invariant[C07] g(dropped, send) > lold(g(dropped, send)) ==> ctxdone(ctx)
+//@     invariant[C07] g(dropped, send) >= lold(g(dropped, send))
+//@     invariant[C07] g(dropped, send) == lold(g(dropped, send)) ==> extendsBy(chanbuf(send), lold(chanbuf(send)), chanbuf(subCh), lold(chanhead(subCh)), chanhead(subCh))
 
 // ---------------------------------------------------------------------------------------------
 // C20: HTTP front door
